@@ -95,6 +95,14 @@ func VH_C03_batching(m, kinds, maxN, maxK int) {
 		idx += vhIndex(false) // strictly ascending
 		log = append(log, vhEntry(idx, vhArbCommand(kinds, maxK, false)))
 	}
+	vhCompareBatchings(fa, fb, log, idx)
+	verif.Cover("end")
+}
+
+// vhCompareBatchings applies log to fa in one apply call and to fb cut at an
+// arbitrary partition and compares results, content and bookkeeping.
+func vhCompareBatchings(fa, fb *FSM, log []sm.Entry, idx uint64) {
+	m := len(log)
 	mk := func() []sm.Entry {
 		c := make([]sm.Entry, len(log))
 		for i := range log {
@@ -134,6 +142,26 @@ func VH_C03_batching(m, kinds, maxN, maxK int) {
 	verif.Assert(vhReadIndex(fa, false) == vhReadIndex(fb, false), "same applied index")
 	verif.Assert(vhReadIndex(fa, false) == idx, "applied index == index of the last entry")
 	verif.Assert(vhReadIndex(fa, true) == vhReadIndex(fb, true), "same leader index")
+}
+
+// VH_C03_rangethenread: a range delete followed by a command whose result
+// reads the state (put with prev_kv / counted delete): the reading command's
+// result must not depend on whether both were applied in one call.
+func VH_C03_rangethenread(maxN, maxK int) {
+	dbA := vhOpenDB()
+	ref := vhArbitraryStateSys(dbA, maxN, maxK, -1, true)
+	dbB := vhCopyState(ref)
+	fa, fb := vhFSM(dbA, nil), vhFSM(dbB, nil)
+	first := &regattapb.Command{Table: []byte("t"), Type: regattapb.Command_DELETE, Kv: &regattapb.KeyValue{Key: vhArbKey(1, maxK)}, RangeEnd: wildcard}
+	second := &regattapb.Command{Table: []byte("t")}
+	k := vhArbKey(1, maxK)
+	if verif.Bool() {
+		second.Type, second.Kv, second.PrevKvs = regattapb.Command_PUT, &regattapb.KeyValue{Key: k, Value: verif.Bytes(1)}, true
+	} else {
+		second.Type, second.Kv, second.PrevKvs, second.Count = regattapb.Command_DELETE, &regattapb.KeyValue{Key: k}, true, true
+	}
+	log := []sm.Entry{vhEntry(5, first), vhEntry(6, second)}
+	vhCompareBatchings(fa, fb, log, 6)
 	verif.Cover("end")
 }
 
